@@ -36,7 +36,7 @@ package main
 //
 // Trace format, one group per event:
 //
-//	N <n> <electionTick> <rngseed> <MaxSizePerMsg> <k: initial voters 1..k, 0 = all> <flags: 1 PreVote, 2 CheckQuorum>
+//	N <n> <electionTick> <rngseed> <MaxSizePerMsg> <k: initial voters 1..k, 0 = all> <flags: 1 PreVote, 2 CheckQuorum (+ TransferLeader events), 4 learners>
 //	EV <kind> <node> <args>
 //	OUT <msg>                     (0 or more: what the node handed to the network)
 //	ST <node> <term> <vote> <commit> <role F|C|L> <lead> <nlog> (<term> <payload>)* [CFG <nin> ids <nout> ids <autoleave>]
@@ -99,6 +99,7 @@ type cluster struct {
 	ccVoters     int // > 0: membership-change schedule; the initial voters are 1..ccVoters
 	preVote      bool // Config.PreVote (simpv schedules; monitored, not model-validated)
 	checkQuorum  bool // Config.CheckQuorum
+	learners     bool // flag 4: membership-change schedule that also adds learners (monitored only)
 	snapHeavy    bool // schedule numbers 3000000..3999999: frequent compaction and duplicated deliveries
 	nodes        []*simNode
 	flight       []flightMsg
@@ -254,7 +255,7 @@ func (c *cluster) config(nd *simNode) *raft.Config {
 
 func newCluster(n, electionTick int, rngseed uint64, maxSize uint64, ccVoters int, flags int, w *bufio.Writer) (*cluster, error) {
 	c := &cluster{n: n, electionTick: electionTick, maxSize: maxSize, ccVoters: ccVoters, w: w, nextPayload: 1,
-		preVote: flags&1 != 0, checkQuorum: flags&2 != 0}
+		preVote: flags&1 != 0, checkQuorum: flags&2 != 0, learners: flags&4 != 0}
 	reseedRaftRand(rngseed)
 	nv := n
 	if ccVoters > 0 && ccVoters < n {
@@ -410,7 +411,7 @@ func (c *cluster) exec(kind string, i int, payload int, m *flightMsg) (ok bool) 
 		fmt.Fprintf(c.w, "EV %s %d\n", kind, nd.id)
 	case "R":
 		fmt.Fprintf(c.w, "EV %s %d\n", kind, nd.id)
-	case "K", "SR", "CC":
+	case "K", "SR", "CC", "TL":
 		fmt.Fprintf(c.w, "EV %s %d %d\n", kind, nd.id, payload)
 	case "D", "DD":
 		fmt.Fprintf(c.w, "EV %s %d %s\n", kind, nd.id, msgKey(*m))
@@ -461,6 +462,9 @@ func (c *cluster) exec(kind string, i int, payload int, m *flightMsg) (ok bool) 
 		// the model's payload codes: 100+x add voter x; 110+x remove voter x; 130+10a+b add a and
 		// remove b through a joint configuration that is left automatically
 		switch {
+		case payload >= 300:
+			// (monitor-only schedules) add learner x
+			_ = nd.rn.ProposeConfChange(pb.ConfChange{Type: pb.ConfChangeAddLearnerNode, NodeID: uint64(payload - 300)})
 		case payload >= 130:
 			a, b := uint64((payload-130)/10), uint64((payload-130)%10)
 			_ = nd.rn.ProposeConfChange(pb.ConfChangeV2{Changes: []pb.ConfChangeSingle{
@@ -470,6 +474,9 @@ func (c *cluster) exec(kind string, i int, payload int, m *flightMsg) (ok bool) 
 		default:
 			_ = nd.rn.ProposeConfChange(pb.ConfChange{Type: pb.ConfChangeAddNode, NodeID: uint64(payload - 100)})
 		}
+	case "TL":
+		// (monitor-only schedules) leadership transfer to node payload
+		nd.rn.TransferLeader(uint64(payload))
 	case "D", "DD", "FP", "FPD":
 		nd.pendingGhost = m.ghost
 		_ = nd.rn.Step(m.m)
@@ -581,7 +588,11 @@ func (c *cluster) runRandom(r *rng, nevents int) {
 				remove(r.intn(len(c.flight)))
 			}
 		case x < p.wDeliver+p.wDup+p.wDrop+p.wTick:
-			ok = c.exec("T", r.intn(c.n), 0, nil)
+			if c.checkQuorum && r.chance(1, 6) {
+				ok = c.exec("TL", r.intn(c.n), 1+r.intn(c.n), nil)
+			} else {
+				ok = c.exec("T", r.intn(c.n), 0, nil)
+			}
 		case x < p.wDeliver+p.wDup+p.wDrop+p.wTick+p.wPropose:
 			ok = c.exec("P", r.intn(c.n), c.payload(), nil)
 		case x < p.wDeliver+p.wDup+p.wDrop+p.wTick+p.wPropose+p.wCampaign:
@@ -619,7 +630,13 @@ func (c *cluster) runRandom(r *rng, nevents int) {
 			// a membership change proposed at a random node (node 1 is never removed, so that no
 			// sequence of changes can empty the configuration, which raft treats as an application bug)
 			var code int
-			switch r.intn(5) {
+			sel := r.intn(5)
+			if c.learners && r.chance(1, 3) {
+				sel = 5
+			}
+			switch sel {
+			case 5:
+				code = 300 + 2 + r.intn(c.n-1)
 			case 0, 1:
 				code = 100 + 1 + r.intn(c.n)
 			case 2, 3:
@@ -710,6 +727,9 @@ func cmdSim(args []string) error {
 			maxSize = 0
 		}
 		flags := 0
+		if simWithConfChanges && n >= 2 && r.chance(1, 4) {
+			flags = 4 // learners too: outside the membership-change model, monitored only
+		}
 		if simWithPreVote {
 			// PreVote on; CheckQuorum on in half of the schedules; a small election timeout in half
 			// of them so that ticks campaign and CheckQuorum fires
@@ -798,7 +818,7 @@ func cmdSimFile(args []string) error {
 			switch base {
 			case "C", "T", "R":
 				ok = c.exec(kind, id-1, 0, nil)
-			case "P", "SR", "CC":
+			case "P", "SR", "CC", "TL":
 				p, _ := strconv.Atoi(tok[3])
 				ok = c.exec(kind, id-1, p, nil)
 			case "K":
